@@ -283,12 +283,12 @@ Got/Model/AtomicIR.lean; its generic small-step semantics turns them into labell
 continuation and locals are the image of its hand-written program counter.  `toF s a` / `toA s a` = the hand-written
 action (`load t` or `cas t`) that `tau t` is in state `s`. -/
 
-/-- The translator accepted the five functions (otherwise the generated body is empty and the note names the construct).
+/-- The translator accepted the six functions (otherwise the generated body is empty and the note names the construct).
     AddIf64's guard `if addr == nil { return false }` is not translated: the models assume a non-nil address. -/
 theorem C17_translation_in_fragment :
     Got.Generated.AstLoomAtomics.addFlagNote = "ok" ∧ Got.Generated.AstLoomAtomics.removeFlagNote = "ok" ∧
     Got.Generated.AstLoomAtomics.addIf64Note = "ok" ∧ Got.Generated.AstLoomAtomics.tryLockNote = "ok" ∧
-    Got.Generated.AstLoomAtomics.countNote = "ok" := by decide
+    Got.Generated.AstLoomAtomics.countNote = "ok" ∧ Got.Generated.AstLoomAtomics.hasFlagNote = "ok" := by decide
 
 /-- **Translator tie, Flag, one step.** Corresponding states stay corresponding: an action of the LTS generated from the
     source of AddFlag/RemoveFlag is exactly the action `toF s a` of the hand-written model `stepF`. -/
@@ -408,3 +408,11 @@ example :
     Got.Model.AtomicsGen.lastRetB x.g.hist 2 = some false ∧ x.s.holders = [1] ∧
     (Got.Model.AtomicsGen.mxStep x (.env (.unlock 1))).g.mem.cell32 = 0#32 ∧
     (Got.Model.AtomicsGen.countRun 17#32).hist = [(0, .inv 1 []), (0, .ret (some (.i64 3#64)))] := by decide
+
+/-- **HasFlag, translated**: for every flag word `v` and mask `f`, the LTS generated from the source of `HasFlag`
+    (`return (atomic.LoadInt64(addr) & flag) != 0`, read as `tmp := load; return (tmp & flag) != 0`) returns
+    `hasFlag v f = (v &&& f != 0)` and leaves the word unchanged. -/
+theorem C17_translated_source_hasflag (v f : W64) :
+    (Got.Model.AtomicsGen.hasFlagRun v f).hist = [(0, .inv 2 [.i64 f]), (0, .ret (some (.bool (hasFlag v f))))] ∧
+    (Got.Model.AtomicsGen.hasFlagRun v f).mem.cell = v :=
+  Got.Lemmas.AtomicsAst.hasFlag_gen v f
